@@ -105,15 +105,15 @@ def integral_closed_form(pref, integrand, xv, wv):
          Int x^k log(w/(x(1-x))) = (log w)/(k+1) + 1/(k+1)^2 + H_{k+1}/(k+1)
          Int (r0 + r1 x) log(w/(x(1-x)))/(w - x(1-x)) = (r0 + r1/2) f_PS(w)/w      [hep-ph/0609168 (70)]"""
     R = canon(integrand)
-    logs = [a for a in R.n.atoms() if isinstance(a, tuple) and a[0] == "LOG" and isinstance(a[1], tuple)]
-    if len(logs) != 1 or R.n.degree_in(logs[0]) != 1 or not R.n.coeff_of(logs[0], 0).is_zero():
-        raise NotPolynomial("integrand is not P/B * log(..)")
-    L = logs[0]
     x, w = Poly.atom(("sym", xv)), Poly.atom(("sym", wv))
-    want = Rat(w, x * (Poly.const(1) - x))
-    if key(ARGS[L[1]]) != key(want):
-        raise NotPolynomial("logarithm is not log(w/(x(1-x)))")
-    P, B = R.n.coeff_of(L, 1), R.d
+    Lw, Lx, L1x = LOG(key(Rat(w))), LOG(key(Rat(x))), LOG(key(Rat(Poly.const(1) - x)))
+    # log(w/(x(1-x))) = log w - log x - log(1-x): the numerator must be P * (Lw - Lx - L1x)
+    P0 = R.n.coeff_of(Lw, 1)
+    rest = R.n - P0 * (Poly.atom(Lw) - Poly.atom(Lx) - Poly.atom(L1x))
+    if P0.is_zero() or not rest.is_zero():
+        raise NotPolynomial("integrand is not P/B * log(w/(x(1-x)))")
+    L = Lw
+    P, B = P0, R.d
     # B = c (x^2 - x + w)
     b2 = B.coeff_of(("sym", xv), 2)
     if not b2.is_const() or b2.is_zero():
